@@ -4,6 +4,8 @@
 //!        getpath | getvec | raw n | getobs | getcf | getmethod | getstatus | code
 //!   ACC view <pkt>        coap-message 0.2 and 0.3 read views
 //!   ACC copy <pkt>        set_from_message through 0.2 and through 0.3 into a fresh Packet
+//!   ACC copyinto <cl> <n:val,...> <pkt>   set_from_message (0.2 | 0.3) into a target that already holds the listed
+//!                         options (and a payload): the copy appends to what is there
 //!   ACC wadd <cl> <n:val,...> <code> <payload> <pkt>   write through MinimalWritableMessage (0.2 | 0.3) onto an
 //!                         EXISTING message: add_option in the given (arbitrary) order, set_code, set_payload
 use crate::pkt::{dump, parse_val, val_token, CodeSpec, PktSpec};
@@ -268,6 +270,63 @@ pub fn view_case(cx: &mut Ctx, spec: &PktSpec, cleared: &[u16]) {
     }
 }
 
+
+
+/// `set_from_message` into a target that is NOT fresh: the source's options are added to the
+/// target's (per-number order: target's first), code and payload are replaced
+pub fn copyinto_case(cx: &mut Ctx, spec: &PktSpec, cleared: &[u16], pre: &[(u16, Vec<u8>)]) {
+    let cl = if cleared.is_empty() { "_".to_string() } else { cleared.iter().map(|n| n.to_string()).collect::<Vec<_>>().join(",") };
+    let pt = if pre.is_empty() { "_".to_string() } else { pre.iter().map(|(n, v)| format!("{}:{}", n, val_token(v))).collect::<Vec<_>>().join(",") };
+    let line = format!("ACC copyinto {} {} {}", cl, pt, spec.line());
+    let build = || {
+        let mut p = spec.build();
+        for n in cleared {
+            p.clear_option(CoapOption::from(*n));
+        }
+        p
+    };
+    let target = || {
+        let mut d = Packet::new();
+        for (n, v) in pre {
+            d.add_option(CoapOption::from(*n), v.clone());
+        }
+        d.payload = vec![9, 9, 9];
+        d
+    };
+    let r = guarded(|| {
+        let src = build();
+        let mut a = target();
+        {
+            use coap_message::MinimalWritableMessage;
+            a.set_from_message(&src);
+        }
+        let mut b = target();
+        {
+            use coap_message_0_3::MinimalWritableMessage;
+            b.set_from_message(&src).unwrap();
+        }
+        // reference through the native calls
+        let mut n = target();
+        n.header.code = MessageClass::from(u8::from(src.header.code));
+        for (num, vals) in src.options() {
+            for v in vals.iter() {
+                n.add_option(CoapOption::from(*num), v.clone());
+            }
+        }
+        n.payload = src.payload.clone();
+        (a, b, n)
+    });
+    match &r {
+        None => cx.case(&line, "panic"),
+        Some((a, b, n)) => {
+            cx.case(&line, &format!("{} | {}", dump(a), dump(b)));
+            cx.nontrivial(&line);
+            if spec.tok.len() <= 15 && (dump(a) != dump(n) || dump(b) != dump(n)) {
+                cx.oracle_fail("C19", &line, &format!("copied through the generic interface into a non-empty target: {} / {}, through the native calls: {}", dump(a), dump(b), dump(n)));
+            }
+        }
+    }
+}
 
 /// writes through the generic interface onto a message that already has content: options added in
 /// any order (Packet is seek-writable), code and payload set; must equal the native calls
@@ -635,6 +694,7 @@ pub fn run(cx: &mut Ctx) {
         let pl2 = rng.below(4) as usize;
         let pay2 = rng.bytes(pl2);
         wadd_case(cx, &spec, &cleared, &adds, *rng.pick(&[0x45u8, 1, 0, 0x84]), &pay2);
+        copyinto_case(cx, &spec, &cleared, &adds);
     }
     // directed: a Uri-Path segment added through the generic interface to a request that already has a
     // path and a higher-numbered option; an option repeated below the highest present number
@@ -643,6 +703,7 @@ pub fn run(cx: &mut Ctx) {
         for adds in [vec![(11u16, b"now".to_vec())], vec![(4, vec![2])], vec![(15, b"r".to_vec()), (11, b"z".to_vec())], vec![(12, vec![60])], vec![(1, vec![]), (65535, vec![1]), (11, vec![])]] {
             wadd_case(cx, &spec, &[], &adds, 2, b"p");
             wadd_case(cx, &spec, &[12], &adds, 2, b"");
+            copyinto_case(cx, &spec, &[], &adds);
         }
     }
     // in-place writes through MutableWritableMessage (both trait versions)
